@@ -288,8 +288,9 @@ def run_case(case, res):
             t = Tree("t", forward_attrs=True, calc_data_id=lambda tree, d: d.key)
             nodes = gen.build(t, f, lambda i: _Fwd(f"n{i}"))
             return t, nodes, {id(nd): i for i, nd in enumerate(nodes)}
-        t = Tree("t")
-        if lab == "eqsib":
+        t = Tree("t", calc_data_id=lambda tree, d: "hook:" + str(d)) if lab == "hookids" else Tree("t")
+        if lab in ("eqsib", "hookids"):
+            # (`hookids`: the tree has an id rule of its own, the nodes carry explicit ids that deviate from it - kept nodes keep them)
             nodes = gen.build(t, f, lambda i: "x", data_id=lambda i: f"id{i}")
         elif lab == "clones":
             nodes = gen.build(t, f, lambda i: clabs[i])
@@ -475,7 +476,7 @@ def run_shard(spec, res):
                     if n >= 2 and (k // NSHARDS) % 3 == 0:
                         run_case({"f": fc, "assign": assign, "form": forms[0], "start": starts[0], "typed": True}, res)
                     if n >= 2:
-                        lab = ["eqsib", "clones", "fwd", "ext"][(k // NSHARDS) % 4]
+                        lab = ["eqsib", "clones", "fwd", "ext", "hookids"][(k // NSHARDS) % 5]
                         run_case({"f": fc, "assign": assign, "form": forms[0], "start": starts[0], "lab": lab, "lseed": k}, res)
                 if res.expired():
                     res.count("exhaustive_cut")
@@ -489,7 +490,7 @@ def run_shard(spec, res):
             w = rng.choice([[6, 5, 2, 1, 1, 1, 0.3], [3, 3, 1, 2, 2, 2, 1], [1, 6, 1, 1, 1, 1, 0.2]])
             assign = "".join(rng.choices(V, weights=w, k=n))
             run_case({"f": gen.code(f), "assign": assign, "form": rng.choice(["ret", "raise", "stopiter"]),
-                      "start": rng.choice([-1, -1, rng.randrange(n)]), "lab": rng.choice(["uniq", "eqsib", "clones", "fwd", "ext"]),
+                      "start": rng.choice([-1, -1, rng.randrange(n)]), "lab": rng.choice(["uniq", "eqsib", "clones", "fwd", "ext", "hookids"]),
                       "lseed": rng.randrange(10**6), "typed": rng.random() < 0.25, **({"pyopt": True} if spec.get("pyopt") else {})}, res)
             if res.expired():
                 break
